@@ -66,9 +66,25 @@ def run(ctx):
         atype = au.atype_of(I, dom)
         vecs = au.dom_vectors(dom)
         case = dict(nUnits=n_units, rows=rows, labels=labels, dist=dist, K=K, c=c)
+        if it % 2 == 1:
+            case["earlier_oracle_on_equal_provenance"] = dict(K=K % 3 + 1, c=(c if it % 4 == 1 else c + 1), numtuples=max(n_units - 1, 0) + (it % 3), same_object=(it % 4 == 3))
         queries = [(u, bw, bwo) for u in range(n_units) for bw in list(range(n_rows)) + [None] for bwo in list(range(n_rows)) + [None]]
         if len(queries) > 60:
             queries = rng.sample(queries, 60)
+        warm = None
+        if it % 2 == 1:
+            # state carried between oracle constructions: first an oracle over an EQUAL provenance (the same object or a fresh one with the same contents) with
+            # ANOTHER tally type (other K / class count / size cap), queried once and dropped; the oracle under test must not notice
+            K0, c0 = K % 3 + 1, (c if it % 4 == 1 else c + 1)
+            dom0 = {"tally": [max(n_units - 1, 0) + (it % 3), K0, c0]}
+            warm = dict(K=K0, c=c0, numtuples=dom0["tally"][0], same_object=(it % 4 == 3))
+            try:
+                p0 = prov if it % 4 == 3 else conj_prov(I, rows, n_units)[0]
+                o0 = I["oracle"].ShapleyOracle(provenance=p0, labels=np.array(labels), distances=np.array(dist, dtype=float), atype=au.atype_of(I, dom0))
+                o0.query(target=p0.units[0], boundary_with=0, boundary_without=None)
+            except Exception:  # noqa
+                pass
+            del dom0
         try:
             oracle = I["oracle"].ShapleyOracle(provenance=prov, labels=np.array(labels), distances=np.array(dist, dtype=float), atype=atype)
             built = None
